@@ -52,6 +52,10 @@ CHECKS = {
  "C11": (MC, "5/C11",
   "Misuse classes (index outside the shape incl. negative, string too long for the space fixed at creation, array update of another length, same-length update with larger dynamic items, union non-member by object and by name, buffer of another context, offset without buffer) executed on symbolically placed objects with live neighbours: an exception must be raised, the write log must be unchanged at that point for every placement, object and neighbours keep their values.",
   W_NOTE, W_TECH),
+ "C14": (EX, "5/C14",
+  "Bounded exhaustive path enumeration of the real sort_classes/topological_sort/sources_from_classes on abstract classes whose dependency edges (none / inner type / declared dependency) are solver variables; every branch on an edge is a solver-decided fork, so each feasible path is one dependency graph inside the bound (<=3 classes quick, <=4 thorough; enumerated root lists and API masks). Per graph: acyclic => no error, each reachable class with an API exactly once, dependencies first, one source block per class; cyclic => ValueError. This is the weakest use of the technique (the solver only prunes and supplies models) and is labelled as such.",
+  "graphs with more classes are outside the claim; 'the emitted source compiles' is observed only in the replay of a counterexample (real Struct classes + cffi build); A2 (distinct names).",
+  "symbolic execution with solver-variable edges = bounded exhaustive path enumeration; replay with real classes and cffi"),
 }
 NA = {
  "C17": "kernel-call glue around cffi/ctypes pointers and NumPy scalar constructors: values cross into C objects a symbolic executor cannot follow and there is no arithmetic to encode beyond ctypes.data+_offset; needs compiled kernels and byte-level observation (execution, not solving). DESIGN.md section 6.",
